@@ -654,7 +654,7 @@ fn naive_eval(a: &EvalArgs) -> Naive {
                 return fail(Some("TooManyIterations"), taint);
             }
         }
-        if iters > 100_000 {
+        if iters > 20_000 {
             return unknown(taint);
         }
         let opc = prog[pc];
